@@ -26,6 +26,11 @@ func drawPart(rt *rapid.T, label string, max int, allowEmpty bool) []c18Line {
 		min = 0
 	}
 	n := rapid.IntRange(min, max).Draw(rt, label+"n")
+	// now and then a long part (more entries than small-slice code paths,
+	// e.g. insertion sort below 13 elements, ever see)
+	if rapid.IntRange(0, 7).Draw(rt, label+"long") == 0 {
+		n = rapid.IntRange(13, 24).Draw(rt, label+"nLong")
+	}
 	var l []c18Line
 	noPermit := rapid.IntRange(0, 4).Draw(rt, label+"noPermit") == 0
 	for i := 0; i < n; i++ {
@@ -230,11 +235,27 @@ func init() {
 			v6.WriteString(panRule(fmt.Sprintf("t6x%dx%d", b2i(l.permit), l.n), l.permit, false))
 		}
 		if d.hasRaw {
-			for _, l := range d.rawPre {
-				raw.WriteString(panRule(fmt.Sprintf("t7x%dx%d", b2i(l.permit), l.n), l.permit, false))
+			// The <APPEND/> mark is per rule: marked and unmarked rules may
+			// alternate in the file; each kind keeps its own order.
+			pre, app := d.rawPre, d.rawApp
+			mix := rapid.Bool().Draw(rt, "interleave")
+			for len(pre)+len(app) > 0 {
+				takeApp := len(pre) == 0
+				if mix && len(pre) > 0 && len(app) > 0 {
+					takeApp = rapid.Bool().Draw(rt, "nextIsAppend")
+				}
+				if takeApp {
+					l := app[0]
+					app = app[1:]
+					raw.WriteString(panRule(fmt.Sprintf("t8x%dx%d", b2i(l.permit), l.n), l.permit, true))
+				} else {
+					l := pre[0]
+					pre = pre[1:]
+					raw.WriteString(panRule(fmt.Sprintf("t7x%dx%d", b2i(l.permit), l.n), l.permit, false))
+				}
 			}
-			for _, l := range d.rawApp {
-				raw.WriteString(panRule(fmt.Sprintf("t8x%dx%d", b2i(l.permit), l.n), l.permit, true))
+			if mix {
+				ev.Class("c18:panos-append-interleaved")
 			}
 		}
 		dev := `<config><devices><entry name="localhost.localdomain"><deviceconfig><system><hostname>router</hostname></system></deviceconfig>` +
